@@ -25,7 +25,7 @@ Verdict(C) ==
     THEN {"Precond:RefinementOrigin"}
   ELSE IF ~HasNodal(el, fam, dim) THEN {"MACHINERY:FamilyNotExact"}
   ELSE
-    LET T == FamilyTable(el, fam, dim)
+    LET T == TLCEval(FamilyTable(el, fam, dim))
         sig == T.sig
         Gc == DofTable(Mc, sig, fam, dim)
         Gf == DofTable(Mf, sig, fam, dim)
@@ -40,7 +40,7 @@ Verdict(C) ==
     ELSE
       LET NUM == LocalNum(Mc, Mf, par, T)
           OCC == Occurrences(Gf, ngf)
-          ROWS == [i \in 1..ngf |-> RowContribs(OCC[i], NUM, Gc, par, dim)]
+          ROWS == TLCEval([i \in 1..ngf |-> RowContribs(OCC[i], NUM, Gc, par, dim)])
           ls == LocalScale(T)
           k == C.ps \div ls
           h1 == Conformity(el) \in {"H1", "C1"}
